@@ -1002,7 +1002,10 @@ class EventGenerator:
                 rolling = False
                 for var in sequence:
                     values = getattr(obj, var.name)
-                    if collections.is_array(values):
+                    # A token list is one element, not one element per token
+                    if collections.is_array(values) and (
+                        var.list_element or not var.tokens
+                    ):
                         if j < len(values):
                             rolling = True
                             value = values[j]
